@@ -12,6 +12,9 @@ func All() map[string]core.Prop {
 		"C05": C05{},
 		"C06": C06{},
 		"C07": C07{},
+		"C08": C08{},
+		"C09": C09{},
+		"C10": C10{},
 		"C11": C11{},
 		"C12": C12{},
 		"C13": C13{},
